@@ -63,6 +63,8 @@ class Ed25519Key(PKey):
 
         if filename or file_obj:
             signing_key = self._parse_signing_key_data(data, password)
+            # Private keys can verify too: keep the public half around.
+            verifying_key = signing_key.verify_key
 
         if signing_key is None and verifying_key is None:
             raise ValueError("need a key")
